@@ -521,7 +521,7 @@ func splitNonEscaped(s string, sep byte) []string {
 // getMatch parses the passed url and tries to match it against the route segments and determine the parameter positions
 func (parser *routeParser) getMatch(detectionPath, path string, params *[maxParams]string, partialCheck bool) bool { //nolint:revive // Accepting a bool param is fine here
 	var i, paramsIterator, partLen int
-	for _, segment := range parser.segs {
+	for idx, segment := range parser.segs {
 		partLen = len(detectionPath)
 		// check const segment
 		if !segment.IsParam {
@@ -535,7 +535,7 @@ func (parser *routeParser) getMatch(detectionPath, path string, params *[maxPara
 			}
 		} else {
 			// determine parameter length
-			i = findParamLen(detectionPath, segment)
+			i = findParamLen(detectionPath, segment, parser.segs[idx+1:])
 			if !segment.IsOptional && i == 0 {
 				return false
 			}
@@ -573,7 +573,7 @@ func (parser *routeParser) getMatch(detectionPath, path string, params *[maxPara
 
 // findParamLen for the expressjs wildcard behavior (right to left greedy)
 // look at the other segments and take what is left for the wildcard from right to left
-func findParamLen(s string, segment *routeSegment) int {
+func findParamLen(s string, segment *routeSegment, following []*routeSegment) int {
 	if segment.IsLast {
 		return findParamLenForLastSegment(s, segment)
 	}
@@ -584,24 +584,41 @@ func findParamLen(s string, segment *routeSegment) int {
 			return 0
 		}
 		return segment.Length
-	} else if segment.IsGreedy {
-		// Search the parameters until the next constant part
-		// special logic for greedy params
-		searchCount := strings.Count(s, segment.ComparePart)
-		if searchCount > 1 {
-			return findGreedyParamLen(s, searchCount, segment)
+	}
+
+	comparePart, partCount, full := segment.ComparePart, segment.PartCount, false
+	// the compare part is the following constant without its trailing slashes, because a trailing slash can be optional;
+	// in a path that holds this constant in full, only the full constant ends the parameter
+	if len(following) > 0 {
+		if next := following[0].Const; len(next) > len(comparePart) && strings.Contains(s, next) {
+			comparePart, partCount, full = next, 0, true
+			for _, seg := range following {
+				if !seg.IsParam {
+					partCount += strings.Count(seg.Const, comparePart)
+				}
+			}
 		}
 	}
 
-	if len(segment.ComparePart) == 1 {
-		if constPosition := strings.IndexByte(s, segment.ComparePart[0]); constPosition != -1 {
+	if segment.IsGreedy {
+		// Search the parameters until the next constant part
+		// special logic for greedy params
+		// (occurrences of the full constant can share a slash, which Count does not see: always search from the right)
+		searchCount := strings.Count(s, comparePart)
+		if searchCount > 1 || full {
+			return findGreedyParamLen(s, searchCount, comparePart, partCount)
+		}
+	}
+
+	if len(comparePart) == 1 {
+		if constPosition := strings.IndexByte(s, comparePart[0]); constPosition != -1 {
 			// same rule as for longer compare parts: a named parameter never spans a slash
 			if !segment.IsGreedy && strings.IndexByte(s[:constPosition], slashDelimiter) != -1 {
 				return 0
 			}
 			return constPosition
 		}
-	} else if constPosition := strings.Index(s, segment.ComparePart); constPosition != -1 {
+	} else if constPosition := strings.Index(s, comparePart); constPosition != -1 {
 		// if the compare part was found, but contains a slash although this part is not greedy, then it must not match
 		// example: /api/:param/fixedEnd -> path: /api/123/456/fixedEnd = no match , /api/123/fixedEnd = match
 		if !segment.IsGreedy && strings.IndexByte(s[:constPosition], slashDelimiter) != -1 {
@@ -625,12 +642,12 @@ func findParamLenForLastSegment(s string, seg *routeSegment) int {
 }
 
 // findGreedyParamLen get the length of the parameter for greedy segments from right to left
-func findGreedyParamLen(s string, searchCount int, segment *routeSegment) int {
+func findGreedyParamLen(s string, searchCount int, comparePart string, partCount int) int {
 	// check all from right to left segments
-	for i := segment.PartCount; i > 0 && searchCount > 0; i-- {
+	for i := partCount; i > 0 && searchCount > 0; i-- {
 		searchCount--
 
-		constPosition := strings.LastIndex(s, segment.ComparePart)
+		constPosition := strings.LastIndex(s, comparePart)
 		if constPosition == -1 {
 			break
 		}
